@@ -11,6 +11,7 @@ import (
 	"regexp"
 	"strconv"
 	"strings"
+	"sync"
 	"testing"
 	"time"
 
@@ -461,7 +462,8 @@ func vfFateCheck(c vfFateCase) error {
 				continue // which of the unsent cases are named depends on where the client died
 			}
 			failedCase := t.Action == "deviate" || t.Action == "error" || t.Action == "feedback"
-			if (t.Marking == "none" && failedCase) || (t.Marking == "failing" && t.Action == "match") {
+			// (a case that was handed over but never answered counts against success whatever its marking)
+			if (t.Marking == "none" && failedCase) || (t.Marking == "failing" && t.Action == "match") || t.Action == "none" {
 				if !strings.Contains(out, "FAILED: "+names[i]+":") && !strings.Contains(out, "FAILED: "+names[i]+" was") {
 					return verifkit.Violf("run-failing-case-unnamed", "case %d (%s, marking %s) counts against success but no FAILED line names it\ncase %+v\nstdout:\n%s", i, t.Action, t.Marking, c, out)
 				}
@@ -531,4 +533,69 @@ func TestVerifC04Fate(t *testing.T) {
 			return cl, nt
 		},
 	})
+}
+
+// TestVerifC04FateTable: the small cross product that the random Fate unit reaches only rarely in a quick run -
+// one distinguished case among two passing ones x what the client does with it x its marking x whether the client
+// then exits by itself (status 0) or runs on to the end of its input. Every row goes through the real Run with
+// scripted peer processes and the same oracle as the random unit.
+func TestVerifC04FateTable(t *testing.T) {
+	en := verifkit.NewEnum(t, "C04FateTable")
+	var replay vfFateCase
+	if en.ReplayCase(&replay) {
+		if err := verifkit.SafeCall(func() error { return vfFateCheck(replay) }); err != nil {
+			en.Fail(replay, err)
+		}
+		en.Done(false)
+		return
+	}
+	var rows []vfFateCase
+	for _, action := range []string{"match", "deviate", "error", "none"} {
+		for _, marking := range []string{"none", "failing", "flaky"} {
+			for _, selfExit := range []bool{false, true} {
+				if action == "none" && !selfExit {
+					continue // a silent client that keeps running is only detected by the runner's 20 s output timeout
+				}
+				for pos := 0; pos < 3; pos += 2 {
+					c := vfFateCase{ExitAfter: -1, Order: "immediate"}
+					for i := 0; i < 3; i++ {
+						c.Tests = append(c.Tests, vfFateTest{Action: "match", Marking: "none"})
+					}
+					c.Tests[pos] = vfFateTest{Action: action, Marking: marking}
+					if selfExit {
+						c.ExitAfter, c.ExitCode = 3, 0
+					}
+					rows = append(rows, c)
+				}
+			}
+		}
+	}
+	shard, shards := verifkit.Shard()
+	var mu sync.Mutex
+	var wg sync.WaitGroup
+	sem := make(chan struct{}, 4)
+	for i, c := range rows {
+		if i%shards != shard {
+			continue
+		}
+		wg.Add(1)
+		sem <- struct{}{}
+		go func(c vfFateCase) {
+			defer wg.Done()
+			defer func() { <-sem }()
+			err := verifkit.SafeCall(func() error { return vfFateCheck(c) })
+			mu.Lock()
+			defer mu.Unlock()
+			d := c.Tests[0]
+			if c.Tests[2].Action != "match" || c.Tests[2].Marking != "none" {
+				d = c.Tests[2]
+			}
+			en.Rec.Observe(c, []string{"action:" + d.Action, "marking:" + d.Marking, fmt.Sprintf("selfExit:%v", c.ExitAfter >= 0)}, d.Action != "match" || d.Marking != "none")
+			if err != nil {
+				en.Fail(c, err)
+			}
+		}(c)
+	}
+	wg.Wait()
+	en.Done(true)
 }
